@@ -405,6 +405,8 @@ func (e Engine) Execute(sc *core.Scenario) *core.Result {
 	switch sc.Property {
 	case "C17":
 		return execC17(sc)
+	case "C18":
+		return execC18(sc)
 	}
 	return &core.Result{Harness: "concur: no executor for " + sc.Property}
 }
@@ -413,6 +415,8 @@ func (e Engine) Generate(prop string, verifSeed int64, tier string, idx int) *co
 	switch prop {
 	case "C17":
 		return genC17(verifSeed, tier, idx)
+	case "C18":
+		return genC18(verifSeed, tier, idx)
 	}
 	return nil
 }
@@ -444,6 +448,9 @@ func (e Engine) Describe(prop string) core.Description {
 	case "C17":
 		d.Rule = "seeded scenarios of 2-4 tasks x 1-4 operations over registries, detection, parsing, writing and constructors; schedule policy per run (random p in {0.01..0.5}, PCT d<=3, operation boundaries); a case is distinct by the hash of (operations, interleaving at in-operation switches) and non-trivial when at least one context switch happened inside an operation interval"
 		d.Stubs = []string{"tagged fake serializers/unserializers registered next to the real drivers so that a result shows which driver served it"}
+	case "C18":
+		d.Rule = "seeded histories of 3-12 constructor calls (every subset of the functional options, values unique per call), observations of every live instance, writes and parses with and without per-call options, over 1-3 tasks, one fresh process per history; reference model: defaults observed from a fresh process (+) the instance's own options; a case is non-trivial when an instance was observed after a later constructor call"
+		d.Assumptions = append(d.Assumptions, "UnserializeOptions and SerializeOptions are empty structs: only nil versus set is observable for them")
 	}
 	return d
 }
